@@ -271,20 +271,24 @@ LifeOutputOK(S, c) ==
 (*   t   transform  0 NULL, 1 identity matrix passed by value, 2 a base matrix M = <<1..9>>,          *)
 (*                  2 + k (k = 1..9) M with only its k-th entry (row-major) changed,                  *)
 (*                  12 / 13 / 14 M with m00<->m11 / tx<->ty / m01<->m10 exchanged,                    *)
-(*                  15 m11 := m00, 16 ty := tx, 17 m00 := m11, 18 tx := ty                            *)
+(*                  15 m11 := m00, 16 ty := tx, 17 m00 := m11, 18 tx := ty,                           *)
+(*                  19 an integer translation, 20 a rotation by 180, 21 by 90 degrees (matrices of    *)
+(*                  other classes: the flags validate derives depend on the class)                    *)
 (*   f   filter     0 nearest, 1 bilinear,                                                        *)
 (*                  2 convolution kernel K (3x3), 3 K passed from another buffer, 4 / 5 / 6 K     *)
 (*                  with only its first / a middle / its last coefficient changed, 7 a 3x1 kernel,*)
 (*                  8 separable convolution S, 9 / 10 / 11 S with only its first / a middle / its *)
 (*                  last tap changed (same header, same size), 12 K with last := first, 13 K with *)
 (*                  first <-> middle, 14 the 3x1 kernel as 1x3 (width <-> height), 15 S with      *)
-(*                  first <-> last tap                                                            *)
+(*                  first <-> last tap, 16 GOOD (bilinear class), 17 FAST (nearest class)         *)
 (*   r   repeat     0 none, 1 normal, 2 pad, 3 reflect                                            *)
 (*   c   clip       0 NULL, 1 one rectangle, 2 two rectangles, 3 / 4 the same two with only the   *)
 (*                  last / the first rectangle changed, 5 the two with x2 <-> y2 of the first,    *)
 (*                  6 the one rectangle with x1 <-> y1                                            *)
 (*   sc  source clipping, cc has_client_clip, ca component alpha, acc accessors: 0 / 1            *)
-(*   am  alpha map  0 none, 1 image A, 2 image B;  ao its origin (x, y) = (v % 3, v / 3), both    *)
+(*   am  alpha map  0 none, 1 image A (a8), 2 B (a8r8g8b8 / a4), 3 C (a wide format: the owner's  *)
+(*                  NARROW_FORMAT flag depends on it), 4 D (a8 like A, other pixels);              *)
+(*                  ao its origin (x, y) = (v % 3, v / 3), both                                   *)
 (*                  coordinates over the same three values, so that new y = old x etc. occur      *)
 (*   pal palette    0 none, 1, 2, 3 = the contents of 1 at another address (indexed formats)      *)
 (*   d   dither     0 none, 1, 2;  dof dither offset (x, y) = (v % 3, v / 3), as for ao           *)
@@ -292,8 +296,8 @@ LifeOutputOK(S, c) ==
 (*       holder's validate must pick up)                                                          *)
 PropNames == {"t", "f", "r", "c", "sc", "cc", "am", "ao", "ca", "acc", "pal", "d", "dof", "ma"}
 PropRange(n) ==
-    CASE n = "t" -> 0..18 [] n = "f" -> 0..15 [] n = "r" -> 0..3 [] n = "c" -> 0..6
-      [] n = "am" -> 0..2 [] n = "ao" -> 0..8 [] n = "pal" -> 1..3 [] n = "d" -> 0..2 [] n = "dof" -> 0..8
+    CASE n = "t" -> 0..21 [] n = "f" -> 0..17 [] n = "r" -> 0..3 [] n = "c" -> 0..6
+      [] n = "am" -> 0..4 [] n = "ao" -> 0..8 [] n = "pal" -> 1..3 [] n = "d" -> 0..2 [] n = "dof" -> 0..8
       [] OTHER -> 0..1
 Defaults == [t |-> 0, f |-> 0, r |-> 0, c |-> 0, sc |-> 0, cc |-> 0, am |-> 0, ao |-> 0, ca |-> 0, acc |-> 0,
              pal |-> 0, d |-> 0, dof |-> 0, ma |-> 0]
@@ -308,6 +312,7 @@ FilterFields(v) ==      \* kind, width, height, first / a middle / last coeffici
       [] v = 10 -> <<"sep", 2, 1, 1, 9, 3>> [] v = 11 -> <<"sep", 2, 1, 1, 2, 9>>
       [] v = 12 -> <<"conv", 3, 3, 1, 2, 1>> [] v = 13 -> <<"conv", 3, 3, 2, 1, 3>>
       [] v = 14 -> <<"conv", 1, 3, 1, 2, 3>> [] v = 15 -> <<"sep", 2, 1, 3, 2, 1>>
+      [] v = 16 -> <<"good">> [] v = 17 -> <<"fast">>
 ClipFields(v) ==
     CASE v = 0 -> <<>> [] v = 1 -> <<"r">> [] v = 2 -> <<"a", "b">> [] v = 3 -> <<"a", "b2">> [] v = 4 -> <<"a2", "b">>
       [] v = 5 -> <<"a swapped", "b">> [] v = 6 -> <<"r swapped">>
@@ -319,6 +324,7 @@ MatrixFields(v) ==
       [] v = 12 -> Exchange(M, 1, 5) [] v = 13 -> Exchange(M, 3, 6) [] v = 14 -> Exchange(M, 2, 4)
       [] v = 15 -> [M EXCEPT ![5] = 1] [] v = 16 -> [M EXCEPT ![6] = 3]
       [] v = 17 -> [M EXCEPT ![1] = 5] [] v = 18 -> [M EXCEPT ![3] = 6]
+      [] v = 19 -> <<"translation">> [] v = 20 -> <<"rotate180">> [] v = 21 -> <<"rotate90">>
 Fields(n, v) ==
     CASE n = "t" -> MatrixFields(v)
       [] n = "f" -> FilterFields(v)
@@ -338,13 +344,15 @@ CanonAll(w) == [n \in DOMAIN w |-> Canon(n, w[n])]
 
 FilterKind(f) == Fields("f", f)[1]
 (* what validate computes: compute_image_info (flags, extended format code) depends on the      *)
-(* transform, the filter kind, repeat, component alpha, accessors, presence of an alpha map;    *)
+(* transform, the filter kind, repeat, component alpha, accessors, presence and format class of  *)
+(* the alpha map;                                                                               *)
 (* property_changed sets up the accessor functions (bits) or the sentinel stops (gradients,     *)
 (* from repeat); validate recurses into the alpha map.                                          *)
+MapClass(am) == IF am = 0 THEN 0 ELSE IF am = 3 THEN 2 ELSE 1     \* none / narrow format / wide format
 Derive(type, st) ==
     [t |-> st.t, fk |-> FilterKind(st.f), r |-> st.r, ca |-> st.ca,
      acc |-> IF type \in {"bits", "indexed"} THEN st.acc ELSE 0,
-     am |-> IF st.am # 0 THEN 1 ELSE 0,
+     am |-> MapClass(st.am),
      sentinel |-> IF type = "gradient" THEN st.r ELSE 0]
 
 PropInit(type) ==
@@ -396,7 +404,9 @@ SetProp(P, n, v) ==
     THEN [P EXCEPT !.want = w, !.stored[n] = v, !.mdirty = IF "nodirty_ma" \in Bugs THEN @ ELSE TRUE]
     ELSE [P EXCEPT !.want = w,
                    !.stored[n] = Norm(n, v),
-                   !.dirty = IF MarksDirty(P, n) THEN TRUE ELSE @]
+                   !.dirty = IF MarksDirty(P, n) /\ ~("dirty_am_presence_only" \in Bugs /\ n = "am"
+                                                        /\ (P.stored.am = 0) = (v = 0))
+                             THEN TRUE ELSE @]
 
 (* _pixman_image_validate: the image recomputes iff dirty; then the attached alpha map is validated *)
 (* in the same way, whether or not the holder was dirty                                            *)
